@@ -213,6 +213,13 @@ func (w *World) verifyFunc(fn *ssa.Function, c *FuncContract) (res *FuncResult) 
 		w.verifyEscapedClosures(x, fn, c)
 	}
 	for _, rc := range c.Reach {
+		if rc.Clause.Label != "bound" && strings.HasPrefix(rc.Stmt, "call:") && !w.writingBaseline {
+			// a callee-keyed gate speaks about every call of that name: with no
+			// such call left it holds trivially (typos are caught when the
+			// baseline is written, where binding is required)
+			vc.diag("%s: gate %q matches no call", name, rc.Stmt)
+			continue
+		}
 		if rc.Clause.Label != "bound" {
 			vc.diag("%s: reach clause: no statement with text %q", name, rc.Stmt)
 			res.Err = "binding: reach statement not found: " + rc.Stmt
